@@ -185,6 +185,10 @@ def mk(name, H, W, params):
         try:
             s0 = call(H, W, sx, params)  # every draw symbolic: one path per outcome of all draws
         except ValueError:
+            if params.get('may_refuse'):  # a layout at the limit of what the size can hold: refusing it is one of the two legal answers
+                sx.cover('refused-with-ValueError')
+                sx.check(True, 'parameters-refused-no-initial-state')
+                return
             sx.assume(False)  # parameters rejected: no initial state (C13's business)
         env = make_env(kind)
         verdict, witness, ns, ne = decide_winnable(sx, env, s0, memory)
@@ -234,8 +238,11 @@ def obligations(tier):
             for j in range(6):
                 if i != j:
                     add('crossing', 9, 9, n=2, preset={0: i, 1: j})
+    # (the last three: as many rooms along one axis as the size can hold, or more -- accepted, or refused with ValueError)
     for (H, W, lay) in [(5, 5, (1, 2)), (5, 5, (2, 1)), (5, 5, (2, 2)), (5, 7, (1, 2))]:
         add('rooms', H, W, layout=lay)
+    for (H, W, lay) in [(5, 5, (1, 3)), (5, 5, (3, 1)), (4, 6, (1, 3)), (4, 7, (1, 3))]:
+        add('rooms', H, W, layout=lay, may_refuse=True)
     if not q:  # the shipped four-rooms 7x7: split by its four passage draws
         import itertools
         for pv in itertools.product([1, 2], [4, 5], [1, 2], [4, 5]):
